@@ -36,7 +36,7 @@ impl<'a> IExec<'a> {
         if auth.is_fault() {
             ctx.count(&format!("F7.{}.{}", func, auth.name()));
         }
-        match resolve_auth(auth, &c) {
+        match resolve_auth(&mut self.sim, auth, &c) {
             None => (vec![], false),
             Some((w, other)) => (vec![AuthEntry { who: self.h[w].clone(), root: AuthNode::new(&self.its(), func, if other { alt.clone() } else { args.clone() }) }], w == o && !other),
         }
@@ -140,7 +140,7 @@ impl<'a> IExec<'a> {
         if auth.is_fault() {
             ctx.count(&format!("F7.deploy_interchain_token.{}", auth.name()));
         }
-        let (entries, auth_ok) = match resolve_auth(auth, &c) {
+        let (entries, auth_ok) = match resolve_auth(&mut self.sim, auth, &c) {
             None => (vec![], false),
             Some((w, other)) => (vec![AuthEntry { who: self.h[w].clone(), root: AuthNode::new(&its, "deploy_interchain_token", if other { alt } else { args.clone() }) }], w == ci && !other),
         };
@@ -409,7 +409,7 @@ impl<'a> IExec<'a> {
         if self_caller {
             ctx.count("probe.contract_address_named_as_caller_from_outside");
         }
-        let (entries, auth_ok) = match if self_caller { None } else { resolve_auth(auth, &c) } {
+        let (entries, auth_ok) = match if self_caller { None } else { resolve_auth(&mut self.sim, auth, &c) } {
             None => (vec![], false),
             Some((w, other)) => {
                 let mut root = AuthNode::new(&its, "interchain_transfer", args.clone());
@@ -562,7 +562,7 @@ impl<'a> IExec<'a> {
         if auth.is_fault() {
             ctx.count(&format!("F7.{}.{}", func, auth.name()));
         }
-        let (entries, auth_ok) = match resolve_auth(auth, &c) {
+        let (entries, auth_ok) = match resolve_auth(&mut self.sim, auth, &c) {
             None => (vec![], false),
             Some((w, other)) => {
                 let full = !(other || auth == AuthVar::RootOnly);
